@@ -250,11 +250,11 @@ def check_kkt(ctx, S, c, idx, thorough):
     def Aop(v, flag):
         return A @ v if flag == 1 else A.T @ v
 
-    # which runs: ISTA always; FISTA (momentum) on every third problem in the quick tier
+    # which runs: ISTA always; FISTA (momentum, ~20x more iterations) on every third / fourth problem
     runs = [(False, 0, "matrix" if idx % 2 == 0 else "function", start)]
-    if thorough or idx % 3 == 0:
+    if idx % (4 if thorough else 3) == 0:
         runs.append((True, 0, "function" if idx % 2 == 0 else "matrix", start))
-    if thorough or idx % 5 == 0:
+    if idx % 5 == 0:
         runs.append((False, 1, "matrix", -start))
     if idx % 7 == 0:
         runs.append((idx % 2 == 0, 0, "matrix", xs.copy()))         # started at the fixed point
